@@ -24,7 +24,9 @@
  *   fmt <precision> <double>         -> fmt <hex of "%.*e" text> (libc reference for NumText)
  *   leak                             -> leak <0|1>     (LSan recoverable check, attributes leaks)
  *   live                             -> live <n>       (allocwrap live block count, -1 without wrap)
+ * At the end of the script: DONE (its absence tells the driver that the last case died).
  */
+#include "archdep.h"
 #include <complex.h>
 #include <errno.h>
 #include <math.h>
@@ -52,7 +54,8 @@ static int cb_last = -1;
 static void error_fn(const char *message, void *arg, vnaerr_category_t category)
 {
     (void)arg;
-    (void)message;
+    if (getenv("CALFILE_VERBOSE") != NULL)
+	fprintf(stderr, "callback[%d]: %s\n", (int)category, message);
     if (category != VNAERR_WARNING) {
 	++cb_count;
 	cb_last = (int)category;
@@ -344,6 +347,29 @@ int main(int argc, char **argv)
 	cb_count = 0;
 	cb_last = -1;
 	errno = 0;
+	if (strcmp(op, "save") == 0 || strcmp(op, "setfp") == 0 || strcmp(op, "setdp") == 0 ||
+		strcmp(op, "delete") == 0 || strcmp(op, "pset") == 0 || strcmp(op, "apply") == 0 ||
+		strcmp(op, "solve") == 0 || strcmp(op, "xfer") == 0) {
+	    /* the library does not accept a NULL container: answer without calling it */
+	    char *copy = strdup(save ? save : "");
+	    char *s2 = NULL;
+	    char *a1 = strtok_r(copy, " \n", &s2);
+	    int s = a1 ? atoi(a1) : 0;
+	    int bad = (s < 0 || s >= SLOTS || slot[s] == NULL);
+	    if (!bad && strcmp(op, "xfer") == 0) {
+		char *a2 = strtok_r(NULL, " \n", &s2);
+		char *a3 = strtok_r(NULL, " \n", &s2);
+		int dst = a3 ? atoi(a3) : 0;
+		(void)a2;
+		bad = (dst < 0 || dst >= SLOTS || slot[dst] == NULL);
+	    }
+	    free(copy);
+	    if (bad) {
+		printf("%s rc=-1 errno=NOVCP\n", (op[0] == 's' && op[1] == 'e') ? "set" : op);
+		fflush(stdout);
+		continue;
+	    }
+	}
 	if (strcmp(op, "create") == 0) {
 	    int s = atoi(TOK());
 	    slot[s] = vnacal_create(error_fn, NULL);
@@ -503,5 +529,7 @@ int main(int argc, char **argv)
 	}
 	fflush(stdout);
     }
+    printf("DONE\n");
+    fflush(stdout);
     return 0;
 }
